@@ -12,6 +12,14 @@
 //   alias    per visit: does the visited object have the address of the container element it should be (lvalue, const)
 //   C        contents after the loop whose body assigned  f(index, value) = 3*value + index + 1  (enumerate)
 //            resp. f(value) = 3*value + 7 (reverse)  through the adaptor (mode l only)
+// case:  re <scenario> <kind> <mode> <elems>     — the SAME adaptor object / container used more than once
+//   kind vec | list | map | fv;  mode l: adaptor over an lvalue container, r: adaptor object owning a temporary
+//   en2 / rv2     auto e = enumerate(c); for (x : e) ..; for (x : e) ..;             -> V2 <visits 1> <visits 2>
+//   enen / enrv   for (x : enumerate(c)) for (y : enumerate(c) resp. reverse(c)) ..  -> NN i:v=<inner visits>|i:v=<inner visits>...
+//   enmod / rvmod adaptor created, THEN every element replaced in place by g(v) = 2*v + 1, then iterated (mode l)
+//                                                                                    -> V <visits> A - C <contents>
+//   enbe / rvbe   (e.begin() != e.end()) before a loop over e, after it, and with begin()/end() stored in variables
+//                 first; number of visits of the loop                                -> BE <3 bits> <count>
 // The temporaries of mode r are created inside the range-for statement itself, so that a dangling adaptor is an
 // AddressSanitizer report (observation CRASH(...)).
 #include "common.hpp"
@@ -19,6 +27,7 @@
 #include <nitro/lang/fixed_vector.hpp>
 #include <nitro/lang/reverse.hpp>
 
+#include <algorithm>
 #include <array>
 #include <functional>
 #include <initializer_list>
@@ -169,6 +178,106 @@ template <class Mk> std::string run_container(bool en, char mode, Mk mk, std::si
     return "BADCASE";
 }
 
+// ---- the same adaptor object / container used more than once ----
+static int gm(int v) { return 2 * v + 1; }
+template <class Ad> std::string visits_en(Ad& e, std::size_t n)
+{
+    Obs o;
+    for (auto x : e)
+    {
+        if (o.count > n + 2) return "RUNAWAY";
+        o.visit_e(x.index(), val(x.value()));
+        o.count++;
+    }
+    return o.vis.empty() ? "." : o.vis;
+}
+template <class Ad> std::string visits_rv(Ad& r, std::size_t n)
+{
+    Obs o;
+    for (auto& x : r)
+    {
+        if (o.count > n + 2) return "RUNAWAY";
+        o.visit_r(val(x));
+        o.count++;
+    }
+    return o.vis.empty() ? "." : o.vis;
+}
+template <class Ad, class Vis> std::string scenario_on(const std::string& sc, Ad& e, std::size_t n, Vis vis)
+{
+    if (sc == "en2" || sc == "rv2")
+    {
+        std::string a = vis(e, n);
+        std::string b = vis(e, n);
+        return "V2 " + a + " " + b;
+    }
+    if (sc == "enbe" || sc == "rvbe")
+    {
+        bool b1 = e.begin() != e.end();
+        std::string v = vis(e, n);
+        bool b2 = e.begin() != e.end();
+        auto bb = e.begin();
+        auto ee = e.end();
+        bool b3 = bb != ee;
+        std::size_t cnt = v == "." ? 0 : 1 + std::count(v.begin(), v.end(), ',');
+        return std::string("BE ") + (b1 ? '1' : '0') + (b2 ? '1' : '0') + (b3 ? '1' : '0') + " " + (v == "RUNAWAY" ? v : std::to_string(cnt));
+    }
+    return "BADCASE";
+}
+template <class Mk> std::string run_reuse(const std::string& sc, char mode, Mk mk, std::size_t n)
+{
+    using C = decltype(mk());
+    auto ven = [](auto& e, std::size_t k) { return visits_en(e, k); };
+    auto vrv = [](auto& e, std::size_t k) { return visits_rv(e, k); };
+    if (sc == "en2" || sc == "enbe")
+    {
+        if (mode == 'l') { C c = mk(); auto e = nl::enumerate(c); return scenario_on(sc, e, n, ven); }
+        if (mode == 'r') { auto e = nl::enumerate(mk()); return scenario_on(sc, e, n, ven); }
+    }
+    if (sc == "rv2" || sc == "rvbe")
+    {
+        if (mode == 'l') { C c = mk(); auto r = nl::reverse(c); return scenario_on(sc, r, n, vrv); }
+        if (mode == 'r') { auto r = nl::reverse(mk()); return scenario_on(sc, r, n, vrv); }
+    }
+    if ((sc == "enen" || sc == "enrv") && mode == 'l')
+    {
+        C c = mk();
+        std::string out;
+        std::size_t outer = 0;
+        for (auto x : nl::enumerate(c))
+        {
+            if (outer++ > n + 2) return "RUNAWAY";
+            Obs in;
+            if (sc == "enen")
+            {
+                for (auto y : nl::enumerate(c)) { if (in.count > n + 2) return "RUNAWAY"; in.visit_e(y.index(), val(y.value())); in.count++; }
+            }
+            else
+            {
+                for (auto& y : nl::reverse(c)) { if (in.count > n + 2) return "RUNAWAY"; in.visit_r(val(y)); in.count++; }
+            }
+            if (!out.empty()) out += "|";
+            out += std::to_string(x.index()) + ":" + std::to_string(val(x.value())) + "=" + (in.vis.empty() ? std::string(".") : in.vis);
+        }
+        return "NN " + (out.empty() ? std::string(".") : out);
+    }
+    if ((sc == "enmod" || sc == "rvmod") && mode == 'l')
+    {
+        C c = mk();
+        if (sc == "enmod")
+        {
+            auto e = nl::enumerate(c);
+            for (auto& el : c) slot(el) = gm(val(el));
+            std::string v = visits_en(e, n);
+            return "V " + v + " A - C " + contents(c);
+        }
+        auto r = nl::reverse(c);
+        for (auto& el : c) slot(el) = gm(val(el));
+        std::string v = visits_rv(r, n);
+        return "V " + v + " A - C " + contents(c);
+    }
+    return "BADCASE";
+}
+
 constexpr std::size_t MAXN = 6;
 
 template <std::size_t N> std::string run_arr(bool en, char mode, const Elems& e)
@@ -254,6 +363,22 @@ template <std::size_t N> struct CArrF { static std::string run(bool en, char mod
 
 static std::string run_case(const std::vector<std::string>& w)
 {
+    if (w.size() == 5 && w[0] == "re" && w[3].size() == 1)
+    {
+        Elems e;
+        if (w[4] != ".")
+            for (auto& t : vh::split_on(w[4], ',')) e.push_back(std::atoi(t.c_str()));
+        const std::string& k = w[2];
+        char mode = w[3][0];
+        std::size_t n = e.size();
+        if (k == "vec") return run_reuse(w[1], mode, [&e] { return std::vector<int>(e.begin(), e.end()); }, n);
+        if (k == "list") return run_reuse(w[1], mode, [&e] { return std::list<int>(e.begin(), e.end()); }, n);
+        if (k == "map")
+            return run_reuse(w[1], mode, [&e] { std::map<int, int> m; for (std::size_t i = 0; i < e.size(); i++) m.emplace(static_cast<int>(i), e[i]); return m; }, n);
+        if (k == "fv")
+            return run_reuse(w[1], mode, [&e] { nl::fixed_vector<int> v(e.size() + 2); for (int x : e) v.push_back(x); return v; }, n);
+        return "BADCASE";
+    }
     if (w.size() != 4 || (w[0] != "en" && w[0] != "rv") || w[2].size() != 1) return "BADCASE";
     bool en = w[0] == "en";
     char mode = w[2][0];
